@@ -20,6 +20,7 @@ REPO = os.environ.get('SM9_REPO', '/repo')
 GUARD = 'john_yu_sm9_core_verif'
 NCPU = int(os.environ.get('VERIF_JOBS', '0')) or min(16, os.cpu_count() or 4)
 
+PAR_REPS = 6               # a parallel block is executed this many times (race windows are short)
 LINE_TIMEOUT_S = 40        # no new answer line for this long => suspected hang
 SOLO_TIMEOUT_S = 90        # the open call re-run alone
 
@@ -168,7 +169,7 @@ class Executor:
         the common answer, or 'par-mismatch …' when the threads disagree."""
         if self.p is None or self.p.poll() is not None:
             self.start()
-        data = ('\n'.join(['!reset', '!par %d' % nthreads] + list(lines) + ['!endpar']) + '\n').encode()
+        data = ('\n'.join(['!reset', '!par %d %d' % (nthreads, PAR_REPS)] + list(lines) + ['!endpar']) + '\n').encode()
         import threading
         th = threading.Thread(target=self._write_all, args=(data,), daemon=True)
         th.start()
